@@ -1768,6 +1768,11 @@ class Evaluator:
             if st.heap.get(k) != v:
                 out.heap[k] = App("loopout", (Const(k[1]), Const(getattr(s, "lineno", 0)), v))
         if getattr(s, "orelse", None):
+            if any(x.kind == "break" for x in ex):
+                # for ... else: the else clause runs only when the loop was not left by break
+                g = App("loopbroke", (it, Const(getattr(s, "lineno", 0))), s)
+                merged, ex2 = self._branch(g, s, out, fr, lambda a: (a, []), lambda b: self.exec_block(s.orelse, b, fr))
+                return merged, exits + ex2
             return_state, ex2 = self.exec_block(s.orelse, out, fr)
             return return_state, exits + ex2
         return out, exits
